@@ -40,7 +40,7 @@ def cases(tier, seed):
     rng = np.random.default_rng([seed, 1515])
     n = 100 if tier == "quick" else 12000
     for i in range(n):
-        d = gen.random_mesh(rng, 40 if tier == "quick" else 120)
+        d = gen.random_mesh(rng, 40 if tier == "quick" else 120, families=gen.ALL_FAMILIES)
         if i % 3 == 0 and d["family"] not in ("latlon_patch", "latlon_global"):
             d["ops"] = [o for o in d.get("ops", []) if o[0] not in ("rot", "snap")] + [["snap", [["face_am", "node_am"][i % 2], int(rng.integers(0, 1000))]]]
         L = int(rng.integers(2, 7))
